@@ -94,3 +94,43 @@ def h_vtt_cue_times():
     prove(p.get_end() == we, "end==printed-time")
   return Harness("vtt.to_model/cue-times", run, ["ttconv.vtt.reader:to_model", "ttconv.vtt.reader:vtt_timestamp_to_secs"],
                  "replayers.reader_times:vtt_cue", {}, "the paragraph of a cue begins and ends exactly at the printed times")
+
+
+def h_srt_frames(fps):
+  """C10 `conversion to frame-based outputs lands on the intended frame`: an SRT cue whose printed times are whole frames at `fps`
+  (ANY digits with that property), read by the real reader and written by the real IMSC writer in frames syntax, carries exactly
+  those frame counts"""
+  from ttconv.imsc.config import IMSCWriterConfiguration, TimeExpressionSyntaxEnum
+  import ttconv.imsc.writer as imsc_writer
+
+  def run(ctx):
+    real = srt_reader.__dict__["_TIMECODE_RE"]
+    real = getattr(real, "_real", real)
+    groups, _info = restub.symbolic_groups(real)
+    g = {k: v.value for k, v in groups.items()}
+    ms = {side: ((g[side + "_h"] * 60 + g[side + "_m"]) * 60 + g[side + "_s"]) * 1000 + g[side + "_ms"] for side in ("begin", "end")}
+    k = {}
+    for side in ("begin", "end"):
+      k[side] = core.sym_int("frames_" + side)
+      core.assume(k[side] >= 0)
+      core.assume(ms[side] * fps == k[side] * 1000)        # the printed time is exactly k frames
+    core.assume(ms["begin"] < ms["end"])
+    srt_reader.__dict__["_TIMECODE_RE"] = restub.StubRegex(real, {PH: groups})
+    try:
+      st, doc = core.call_real(srt_reader.to_model, io.StringIO(f"1\n{PH}\nHello\n\n"), allowed=())
+    finally:
+      srt_reader.__dict__["_TIMECODE_RE"] = real
+    cfg = IMSCWriterConfiguration(time_format=TimeExpressionSyntaxEnum.frames, fps=Fraction(fps))
+    st, tree = core.call_real(imsc_writer.from_model, doc, cfg, allowed=())
+    ps = [e for e in tree.getroot().iter() if e.tag.endswith("}p")]
+    prove(len(ps) == 1, "one-p-element-written")
+    for side in ("begin", "end"):
+      attr = ps[0].get(side)
+      prove(attr is not None, f"{side}-attribute-written")
+      lits, toks = core.tokens_in(attr)
+      prove(lits == ["", "f"] and len(toks) == 1, f"{side}-is-a-frame-count", note=repr(lits))
+      prove(toks[0][0] == k[side], f"written-{side}-frame==intended-frame")
+  return Harness(f"srt->imsc(frames@{fps})/intended-frame", run,
+                 ["ttconv.srt.reader:to_model", "ttconv.imsc.writer:from_model", "ttconv.imsc.attributes:to_time_format", "ttconv.time_code:SmpteTimeCode.from_seconds"],
+                 "replayers.reader_times:srt_frames", {"fps": fps},
+                 "an SRT time that is a whole number of frames lands on exactly that frame in a frame-based IMSC output (all digit values)")
